@@ -209,8 +209,18 @@ def run_history(acc, mols, ops):
                         acc.violation("history_free" if how != "copies" else "copies_equal_defaults",
                                       f"{mg.smiles} ({how}): FfAssignmentError here, the pristine default typing succeeds", case, sig, size=len(text))
                 else:
+                    # a molecule that does not pass chemical sanitisation cannot be typed at all; that is C05's subject (a
+                    # generated molecule sanitises), not a statement about the typer
+                    try:
+                        mg.mol
+                        smi = mg.smiles
+                    except Exception as exc_mol:  # noqa: BLE001
+                        acc.count("molecule_does_not_sanitise_dropped(C05's business)")
+                        if len(acc.samples) < 14:
+                            acc.sample({"not_sanitisable": text, "seed": [kk for _, _, kk in mols], "error": repr(exc_mol)[:150]})
+                        continue
                     acc.violation("dedicated_error" if how != "copies" else "copies_equal_defaults",
-                                  f"{mg.smiles} ({how}): typing raised {res!r} (expected an assignment or FfAssignmentError)", case, {**sig, "error": type(res).__name__}, size=len(text))
+                                  f"{smi} ({how}): typing raised {res!r} (expected an assignment or FfAssignmentError)", case, {**sig, "error": type(res).__name__}, size=len(text))
         kinds = set()
         for mg in gens:
             try:
